@@ -91,12 +91,16 @@ class Conv:
         if isinstance(v, decimal.Decimal):
             if not v.is_finite():
                 return {'t': 'opaque', 'type': 'Decimal:' + str(v)}
+            if len(v.as_tuple().digits) > 6000:
+                return {'t': 'opaque', 'type': 'Decimal:huge:%d-digits' % len(v.as_tuple().digits)}
             r = self.dec_rep(v)
             r.update(t='dec', sub=type(v) is self.CustomDecimal)
             if type(v) not in (self.CustomDecimal, decimal.Decimal):
                 return {'t': 'opaque', 'type': type(v).__name__}
             return r
         if type(v) is int:
+            if v.bit_length() > 20000:          # thousands of digits: not worth shipping to TLC digit by digit
+                return {'t': 'opaque', 'type': 'int:huge:%d-bits' % v.bit_length()}
             r = self.int_rep(v)
             r['t'] = 'int'
             return r
